@@ -1,6 +1,6 @@
 """C03 — allocate / deallocate / truncate relocate every annotation consistently."""
 import re
-from mir import fmt, strip_refs, callee_names
+from mir import fmt, strip_refs, callee_names, walk
 from flow import enum_paths, PathLimit
 from summ import Evaluator, Ref, Adt, Unknown, Panic, MapVal, SeqVal, Closure, deref
 from c04 import mutation_events, is_err_term, root_field, final_outcomes, ARCHIVE, MAX
@@ -184,6 +184,45 @@ def run(facts, rep, ctx):
                 rep.ok(R2, {"op": op, "field": name})
             else:
                 rep.violation(R2, b.name, "field:" + name, "%s never rewrites field `%s` (%s): annotations stored there are not relocated/dropped" % (op, name, ty), "%s:%s" % (b.file, b.line))
+        # ... and on *each* success path: one that changes the data (itself, or by handing `&mut self` to another
+        # method that does) must rewrite every annotation field too
+        for p in okp:
+            mine = set(f for k, f, via in mutation_events(p))
+            via_self = []
+            for e in p.events:
+                if e["k"] == "call" and e["callee"] and e["callee"].startswith(ARCHIVE + "::") and e["args"]:
+                    a0 = e["args"][0]
+                    if a0[0] == "ref" and a0[2] and strip_refs(a0)[0] == "param" and strip_refs(a0)[1] == 1:
+                        cb = facts.body(e["callee"])
+                        if cb is not None:
+                            sub = set()
+                            try:
+                                for p2 in enum_paths(cb, max_paths=500):
+                                    sub |= set(f for k, f, via in mutation_events(p2))
+                            except PathLimit:
+                                sub = {"?"}
+                            if not sub:
+                                # flow-insensitive fallback (bodies with loops): any `&mut self.field` handed to a call
+                                for bb_, t_ in cb.calls():
+                                    for a_ in t_["args"]:
+                                        r_, f_, v_ = root_field(cb.term_of_operand(a_), False)
+                                        if r_:
+                                            sub.add(f_)
+                            mine |= sub
+                            via_self.append(e["callee"].rsplit("::", 1)[-1])
+            if "data" in mine and "?" not in mine:
+                missing = [name for name, ty in fields if name not in mine and kinds.get(name) is not None]
+                tests_flag = op == "allocate" and any(any(x[0] == "param" and x[1] == 4 for x in walk(c_[1])) for c_ in p.conds)
+                if missing and tests_flag:
+                    # e.g. an append fast path for `address == size && !inclusive`, where nothing can need moving
+                    rep.inconc(R2, "%s has a success path selected by the inclusive-shift flag that changes the data without rewriting %s; whether anything could need relocation there is not decided" % (op, ", ".join(missing)))
+                elif missing:
+                    rep.violation(R2, b.name, "path-skips:" + ",".join(missing),
+                                  "%s has a success path that changes the data%s but leaves %s as they were: annotations at or after the edit are not relocated on that path" % (
+                                      op, (" (through %s)" % ", ".join(via_self)) if via_self else "", ", ".join("`%s`" % m_ for m_ in missing)),
+                                  "%s:%s" % (b.file, b.line))
+                else:
+                    rep.ok(R2, {"op": op, "path": "data edit with all annotation fields rewritten"})
         if op != "truncate":
             bad = None
             for p in errp:
@@ -269,11 +308,13 @@ def run(facts, rep, ctx):
                 if name in set(f for k, f, via in mutation_events(work)):
                     rep.inconc(R1, "%s updates `%s` in place; only whole-field rebuilds are understood" % (op, name))
                 continue  # R03.2 reports the missing field
-            val = stores[name]["val"]
+            val0 = stores[name]["val"]
+            late = after_edit_len_reads(work)
             a, S = 16, 64
             mism = []
             rows = 0
             for n in (4, 8):
+                val = subst_len(val0, late, S + n if op == "allocate" else S - n) if late else val0
                 xs = sorted(set([0, 4, a - 4, a - 3, a - 1, a, a + 1, a + 3, a + 4, a + n - 1, a + n, a + n + 1, a + n + 4, a + 2 * n, S - 4, S]))
                 ys = xs if kind == "key+value" else [None]
                 if not fname_is_label(name):
@@ -362,7 +403,8 @@ def run(facts, rep, ctx):
                         rt = [e for e in work.events if e["k"] == "call" and e["callee"] and e["callee"].endswith("::retain") and e["args"] and root_field(e["args"][0], False)[:2] == (True, name)]
                         if st:
                             how = "rebuild"
-                            got = read_result(kind, E.ev(st[-1]["val"], env, b))
+                            late = after_edit_len_reads(work)
+                            got = read_result(kind, E.ev(subst_len(st[-1]["val"], late, cut) if late else st[-1]["val"], env, b))
                         elif rt:
                             how = "retain"
                             clo = E.ev(rt[-1]["args"][1], env, b)
@@ -400,6 +442,41 @@ def hx(v):
     if v > 1 << 32:
         return "usize::MAX-%d" % (MAX - v)
     return str(v)
+
+
+DATA_EDITS = ("truncate", "drain", "splice", "resize", "extend_from_slice", "extend", "insert", "remove", "push", "clear", "split_off", "append")
+
+
+def after_edit_len_reads(work):
+    """bbs of the calls on the work path that read the data length (`self.data.len()`, `self.size()`) *after* the
+    call that edits the data: their value is the new length, not the one the request was validated against."""
+    seen_edit = False
+    out = set()
+    for e in work.events:
+        if e["k"] != "call" or not e["callee"] or not e["args"]:
+            continue
+        sh = e["callee"].rsplit("::", 1)[-1]
+        root, fld, via = root_field(e["args"][0], False)
+        if root and fld == "data" and sh in DATA_EDITS:
+            seen_edit = True
+            continue
+        if not seen_edit:
+            continue
+        a0 = strip_refs(e["args"][0])
+        while a0[0] == "deref":
+            a0 = strip_refs(a0[1])
+        if (sh == "len" and a0[0] == "field" and a0[2] == "data") or (e["callee"].endswith("BinArchive::size") and a0[0] == "param" and a0[1] == 1):
+            out.add(e["bb"])
+    return out
+
+
+def subst_len(t, bbs, new_len):
+    """replace the length reads at blocks `bbs` by the constant post-edit length"""
+    if not isinstance(t, tuple) or not t:
+        return t
+    if t[0] == "call" and len(t) > 3 and t[3] in bbs:
+        return ("const", new_len, "usize")
+    return tuple(subst_len(x, bbs, new_len) if isinstance(x, tuple) else x for x in t)
 
 
 def data_edit(facts, rep, R6, ops, E, fields):
